@@ -45,18 +45,18 @@ open Fuel
 /-- `TokenizeExpression`: the result of the lexer loop does not depend on the fuel once the fuel
     is at least the number of remaining bytes — in every lexer state.  (The Go loop advances its
     position by at least one byte per iteration.) -/
-theorem C05_lex_fuel (s : Bytes) (mode : LexMode) (prev : Option UInt8) (fuel : Nat)
-    (h : s.length ≤ fuel) : lexAux fuel mode prev s = lexAux s.length mode prev s :=
-  lexAux_fuel s mode prev fuel h
+theorem C05_lex_fuel (s : Bytes) (mode : LexMode) (esc : Bool) (fuel : Nat)
+    (h : s.length ≤ fuel) : lexAux fuel mode esc s = lexAux s.length mode esc s :=
+  lexAux_fuel s mode esc fuel h
 
 /-- one more unit of fuel changes nothing: the fuel-0 clause (which silently stops) is not reached -/
-theorem C05_lex_fuel_succ (s : Bytes) (mode : LexMode) (prev : Option UInt8) (fuel : Nat)
-    (h : s.length ≤ fuel) : lexAux (fuel + 1) mode prev s = lexAux fuel mode prev s :=
-  lexAux_succ fuel s h mode prev
+theorem C05_lex_fuel_succ (s : Bytes) (mode : LexMode) (esc : Bool) (fuel : Nat)
+    (h : s.length ≤ fuel) : lexAux (fuel + 1) mode esc s = lexAux fuel mode esc s :=
+  lexAux_succ fuel s h mode esc
 
 /-- `lexExpr` is the lexer loop run to the end of its input, whatever (sufficient) fuel is used -/
 theorem C05_lexExpr_fuel (s : Bytes) (fuel : Nat) (h : s.length ≤ fuel) :
-    lexExpr s = lexAux fuel .code none s := by
+    lexExpr s = lexAux fuel .code false s := by
   unfold lexExpr
   rw [lexAux_fuel s _ _ (s.length + 1) (by omega), lexAux_fuel s _ _ fuel h]
 
@@ -72,11 +72,11 @@ theorem C05_scan_fuel (f : Bytes → Option (Nat × Opener)) (g : TagKind → By
 
 -- non-vacuity: a real expression, lexed with exactly the fuel of the definition and with more
 example : lexExpr (b "a.b|f(1, 'x\\'y') ~ [2.50, not c]") =
-    lexAux 1000 .code none (b "a.b|f(1, 'x\\'y') ~ [2.50, not c]") :=
+    lexAux 1000 .code false (b "a.b|f(1, 'x\\'y') ~ [2.50, not c]") :=
   C05_lexExpr_fuel _ _ (by decide +kernel)
 example : (lexExpr (b "a.b|f(1, 'x\\'y') ~ [2.50, not c]")).length = 17 := by decide +kernel
 -- … and too little fuel IS observable (tokens are lost), so the statement is not vacuous
-example : (lexAux 3 .code none (b "a + b + c")).length = 2 := by decide +kernel
+example : (lexAux 3 .code false (b "a + b + c")).length = 2 := by decide +kernel
 
 /-! ## 2. expression parser: fuel monotonicity -/
 
